@@ -380,15 +380,22 @@ func (te *tableEngine) PlayerJoin(playerID string) error {
 		return ErrTablePlayerNotFound
 	}
 
-	if te.table.State.PlayerStates[playerIdx].Seat == UnsetValue {
+	// this call takes no engine lock: the player list may have changed since the index was looked up
+	players := te.table.State.PlayerStates
+	if playerIdx >= len(players) || players[playerIdx].PlayerID != playerID {
+		return ErrTablePlayerNotFound
+	}
+	player := players[playerIdx]
+
+	if player.Seat == UnsetValue {
 		return ErrTablePlayerInvalidAction
 	}
 
-	if te.table.State.PlayerStates[playerIdx].IsIn {
+	if player.IsIn {
 		return nil
 	}
 
-	te.table.State.PlayerStates[playerIdx].IsIn = true
+	player.IsIn = true
 
 	// 有設定 ReadyGroup，且玩家尚未 Ready 時，則 Ready
 	if isReady, exist := te.rg.GetParticipantStates()[int64(playerIdx)]; exist && !isReady {
